@@ -859,7 +859,12 @@ impl VerylWalker for Formatter {
     /// Semantic action for non-terminal 'Expression02'
     #[inline(never)]
     fn expression02(&mut self, arg: &Expression02) {
-        for x in &arg.expression02_list {
+        for (i, x) in arg.expression02_list.iter().enumerate() {
+            // Prefix operators written back to back can lex as one token
+            // (`& &a` -> `&&a`, `~ ^a` -> `~^a`): keep them apart.
+            if i > 0 {
+                self.space(1);
+            }
             self.expression02_op(&x.expression02_op);
         }
         self.factor(&arg.factor);
